@@ -156,4 +156,39 @@ void countdown_do_while(int* a, int n, int count)
    }
    while(count > 0);
 }
+
+// R19.7: loop shapes that silently skip work (the shapes of findings F65 / F68)
+int predecrement_condition(int* key, int n, int last)
+{
+   for(int i = last; --n; --i)
+      key[n] = i;
+
+   return n;
+}
+
+int zero_bound_loop(const int* src, int* dst)
+{
+   int nnz = 0;
+
+   for(int i = 0; i < nnz; ++i)
+   {
+      dst[nnz] = src[i];
+      ++nnz;
+   }
+
+   return nnz;
+}
+
+// R19.8: an "append" that throws away what is there (the shape of finding F66)
+struct AppendCtl
+{
+   std::vector<int> data;
+   void clear() { data.clear(); }
+   void add(const AppendCtl& other)
+   {
+      clear();
+      data.insert(data.end(), other.data.begin(), other.data.end());
+   }
+};
+void use_append_ctl(AppendCtl& a, const AppendCtl& b) { a.add(b); }
 }
